@@ -36,7 +36,7 @@ def one(sid):
 
 if __name__ == "__main__":
     ids = sys.argv[1:] or sorted(os.path.basename(x) for x in glob.glob("/verif/seeded/C*"))
-    with concurrent.futures.ProcessPoolExecutor(max_workers=6) as ex:
+    with concurrent.futures.ProcessPoolExecutor(max_workers=8) as ex:
         for sid, caught in ex.map(one, ids):
             if caught is None:
                 print(sid, "PATCH DOES NOT APPLY")
